@@ -204,6 +204,10 @@ pub fn main_c10(args: &Args) -> std::io::Result<()> {
             vec![d.x, d.y]
         }));
         cx.emit(2, 4, &c, &[], catch(|| fq(&q.flip())));
+        // the per-coordinate derivative accessors, inherent and through the Segment trait
+        cx.emit(2, 18, &c, &[t], catch(|| vec![q.dx(t), q.dy(t)]));
+        cx.emit(2, 18, &c, &[t], catch(|| vec![Segment::dx(&q, t), Segment::dy(&q, t)]));
+        cx.emit(2, 2, &c, &[t], catch(|| vec![Segment::x(&q, t), Segment::y(&q, t)]));
         cx.emit(2, 5, &c, &[a, b], catch(|| fq(&q.split_range(a..b))));
         cx.emit(2, 6, &c, &[t], catch(|| {
             let (x, y) = q.split(t);
@@ -251,6 +255,12 @@ pub fn main_c10(args: &Args) -> std::io::Result<()> {
                 cx.fail("quadratic derivative is not the slope of the sampled curve", format!("{:?} t={}", q, t));
             }
         }
+        if q.dx(t) != q.derivative(t).x || q.dy(t) != q.derivative(t).y || Segment::dx(&q, t) != q.derivative(t).x || Segment::dy(&q, t) != q.derivative(t).y {
+            cx.fail("quadratic dx / dy differ from the derivative", format!("{:?} t={}", q, t));
+        }
+        if Segment::from(&q) != q.from || Segment::to(&q) != q.to || Segment::x(&q, t) != q.sample(t).x || Segment::y(&q, t) != q.sample(t).y {
+            cx.fail("Segment trait glue differs (quadratic from / to / x / y)", format!("{:?} t={}", q, t));
+        }
         if Segment::sample(&q, t) != q.sample(t) || Segment::flip(&q) != q.flip() || Segment::split(&q, t) != q.split(t)
             || Segment::split_range(&q, a..b) != q.split_range(a..b) || Segment::derivative(&q, t) != q.derivative(t)
         {
@@ -275,6 +285,9 @@ pub fn main_c10(args: &Args) -> std::io::Result<()> {
             vec![d.x, d.y]
         }));
         cx.emit(3, 4, &c, &[], catch(|| fc(&cb.flip())));
+        cx.emit(3, 18, &c, &[t], catch(|| vec![cb.dx(t), cb.dy(t)]));
+        cx.emit(3, 18, &c, &[t], catch(|| vec![Segment::dx(&cb, t), Segment::dy(&cb, t)]));
+        cx.emit(3, 2, &c, &[t], catch(|| vec![Segment::x(&cb, t), Segment::y(&cb, t)]));
         cx.emit(3, 5, &c, &[a, b], catch(|| fc(&cb.split_range(a..b))));
         cx.emit(3, 6, &c, &[t], catch(|| {
             let (x, y) = cb.split(t);
@@ -310,6 +323,12 @@ pub fn main_c10(args: &Args) -> std::io::Result<()> {
             if lhs != rhs {
                 cx.fail("cubic derivative is not the slope of the sampled curve", format!("{:?} t={}", cb, t));
             }
+        }
+        if cb.dx(t) != cb.derivative(t).x || cb.dy(t) != cb.derivative(t).y || Segment::dx(&cb, t) != cb.derivative(t).x || Segment::dy(&cb, t) != cb.derivative(t).y {
+            cx.fail("cubic dx / dy differ from the derivative", format!("{:?} t={}", cb, t));
+        }
+        if Segment::from(&cb) != cb.from || Segment::to(&cb) != cb.to || Segment::x(&cb, t) != cb.sample(t).x || Segment::y(&cb, t) != cb.sample(t).y {
+            cx.fail("Segment trait glue differs (cubic from / to / x / y)", format!("{:?} t={}", cb, t));
         }
         if Segment::sample(&cb, t) != cb.sample(t) || Segment::flip(&cb) != cb.flip() || Segment::split(&cb, t) != cb.split(t)
             || Segment::split_range(&cb, a..b) != cb.split_range(a..b) || Segment::derivative(&cb, t) != cb.derivative(t)
